@@ -29,7 +29,7 @@ ASSUMPTIONS = [
     "used as padding",
 ]
 
-FRAGS = G.UNICODE_ODDITIES + ["lyric", "lyric ", "section", "section ", '"', " ", "  ", "\t", "=", "[", "]", "{", "}", "a",
+FRAGS = G.UNICODE_ODDITIES + G.MARKUP_ODDITIES + ["lyric", "lyric ", "section", "section ", '"', " ", "  ", "\t", "=", "[", "]", "{", "}", "a",
          "Solo 1", "phrase_start", "é", "漢字", "ß", "", "E", "0 = E", "-", "lyric\t", "Section ",
          "LYRIC ", "x\"y", '" ']
 _joined = st.lists(st.sampled_from(FRAGS), min_size=0, max_size=5).map("".join)
